@@ -599,7 +599,7 @@ func init() {
 					const G, N = 16, 120
 					c.Input(map[string]any{"goroutines": G, "calls_each": N, "round": i})
 					c.Nontrivial(fmt.Sprint("shuffle-burst", i, c.Seed))
-					src := "{{ a.shuffle().len() }}|{{ a.shuffle().join(\",\").len() }}|{{ a.contains(a.rand()) }}|{{ a.shuffle().contains(a.shuffle().rand()) }}|{{ a.shuffle().shuffle().shuffle().len() }}|@each(v in a.shuffle()){{ a.contains(v) ? \"\" : \"lost\" }}@end|@for(k = 0; k < 150; k++){{ a.shuffle().len() == a.len() ? \"\" : \"short\" }}{{ a.contains(a.rand()) ? \"\" : \"stray\" }}@end|{{ a.len() }}"
+					src := "{{ a.shuffle().len() }}|{{ a.shuffle().join(\",\").len() }}|{{ a.contains(a.rand()) }}|{{ a.shuffle().contains(a.shuffle().rand()) }}|{{ a.shuffle().shuffle().shuffle().len() }}|@each(v in a.shuffle()){{ a.contains(v) ? \"\" : \"lost\" }}@end|@for(k = 0; k < 500; k++){{ a.shuffle().len() == a.len() ? \"\" : \"short\" }}{{ a.contains(a.rand()) ? \"\" : \"stray\" }}@end|{{ a.len() }}"
 					concurrentBurst(c, G, N, func(g, n int) (string, map[string]any, string) {
 						k := 40 + (g+n)%30
 						xs := make([]int, k)
